@@ -345,7 +345,7 @@ def m_iter_method(ex, f, a):
     if op == 'next_back': return it.pull(ex, True)
     if op in ('map', 'filter', 'filter_map', 'inspect'):
         it.stages.append((op, a[1])); return it
-    if op == 'enumerate': it.stages.append(('enumerate', [0])); return it
+    if op == 'enumerate': it.stages.append(('enumerate', [0], bool(getattr(it, 'rev', False)))); return it      # third field: a rev() was applied BEFORE the enumerate
     if op in ('cloned', 'copied'):
         st = self_type(f) or ''
         ga = None
